@@ -2,6 +2,7 @@
   C10 — block requests tile each assigned piece exactly once.
 -/
 import RdestModel.Lemmas.Trace
+import RdestModel.Lemmas.Req
 set_option linter.unusedSimpArgs false
 set_option linter.unusedVariables false
 namespace Rdest.Props.C10
@@ -134,11 +135,733 @@ end Rdest.Props.C10
 namespace Rdest.Props.C10
 open Rdest Rdest.Wire Rdest.Gen Rdest.Swarm
 
-/-- The full trace statement (T2–T4 of C10). It is evaluated by the driver on the model's trace and on the
-    implementation's trace of every generated script; its kernel proof for all scripts is not completed yet —
-    `T1_blocks_tile_the_piece` and `newPieceRequest_writes` are the proved parts (see MANIFEST level_note). -/
-def C10_trace_full : Prop :=
-  ∀ (sha1 : Bytes → Bytes) (s : HState) (script : List TIn), s.alive = true → s.pieceRx = none →
-    P10 PIECE_BLOCK_SIZE (runTrace sha1 s script) = true
+/-! ### The whole trace: every script -/
+
+def curRel (B : Nat) : Option Cur → Option Rx → Prop
+  | none, none => True
+  | some c, some rx => RelC B c rx
+  | _, _ => False
+
+def R10 (st : M10) (s : HState) : Prop :=
+  st.alive = s.alive ∧ (s.alive = true → curRel PIECE_BLOCK_SIZE st.cur s.pieceRx)
+
+abbrev BS := PIECE_BLOCK_SIZE
+
+/-- The request data carried by a reply. -/
+def repReq01 (rep : Rep) : Option ReqData :=
+  match rep with
+  | .req rd _ => some rd
+  | _ => none
+
+def c0Of (rd : ReqData) : Cur := { idx := rd.index, plen := rd.length, sent := 0, outstanding := [] }
+
+/-- For every input that is not a `Piece` frame the first part of the monitor does nothing. -/
+theorem cur1Of_nonpiece (st : M10) (inp : TIn) (hnp : ∀ i b blk rep d, inp ≠ .frame (.piece i b blk) rep d) :
+    cur1Of st inp = (st.cur, false) := by
+  cases inp with
+  | frame m rep d =>
+    cases m with
+    | piece i b blk => exact absurd rfl (hnp i b blk rep d)
+    | _ => cases hc : st.cur <;> simp [cur1Of, hc]
+  | _ => cases hc : st.cur <;> simp [cur1Of, hc]
+
+/-- The monitor on a non-`Piece` input that stores nothing. -/
+theorem step10c_nonpiece (st : M10) (inp : TIn) (obs : List Obs) (e : Option Bool)
+    (hnp : ∀ i b blk rep d, inp ≠ .frame (.piece i b blk) rep d) (hsv : savedObs obs = []) :
+    step10c BS st inp obs e = finish10 BS st.cur false false inp obs e := by
+  have hc : completesOf BS st.cur false = false := by cases st.cur <;> simp [completesOf]
+  simp only [step10c, cur1Of_nonpiece st inp hnp, hc, hsv]
+  simp
+
+/-- A step that keeps the download as it is and writes no request. -/
+theorem accept_keep (sha1 : Bytes → Bytes) (st : M10) (s s' : HState) (inp : TIn) (o : List HOut) (e : Option Bool)
+    (hR : R10 st s) (ha : s.alive = true)
+    (hnp : ∀ i b blk rep d, inp ≠ .frame (.piece i b blk) rep d)
+    (hsd : NoSD o) (hrq : NoRq o) (hasg : assigned inp (o.filterMap (obsOf sha1)) = none)
+    (hs' : s'.alive = e.isNone ∧ (e.isNone = true → s'.pieceRx = s.pieceRx)) :
+    ∃ st', step10 BS st (inp, o.filterMap (obsOf sha1), e) = some st' ∧ R10 st' s' := by
+  obtain ⟨hRa, hRs⟩ := hR
+  have hlive : (!st.alive) = false := by rw [hRa, ha]; rfl
+  have hsv : savedObs (o.filterMap (obsOf sha1)) = [] := by rw [savedObs_obs]; exact nosd_saves sha1 o hsd
+  have hreq : requestWrites (o.filterMap (obsOf sha1)) = [] := by rw [requestWrites_obs]; exact hrq
+  refine ⟨{ cur := st.cur, alive := e.isNone }, ?_, ⟨hs'.1.symm, fun hal => ?_⟩⟩
+  · simp only [step10, hlive, Bool.false_eq_true, if_false, step10c_nonpiece st inp _ e hnp hsv, finish10, hasg, hreq]
+    cases st.cur with
+    | none => simp
+    | some c => simp [takeRequests]
+  · have he : e.isNone = true := by rw [← hs'.1]; exact hal
+    show curRel BS st.cur s'.pieceRx
+    rw [hs'.2 he]; exact hRs ha
+
+/-- What a (re)assignment must look like: the first two tiles of the new piece requested, or nothing requested. -/
+def AssignRes (o : List HOut) (s' : HState) (e : Option Bool) : Option ReqData → Prop
+  | some rd => ∃ c rx', takeRequests BS (c0Of rd) (rqO o) = some c ∧ c.sent = min 2 (totalOf BS (c0Of rd)) ∧
+      (e.isNone = true → s'.pieceRx = some rx' ∧ RelC BS c rx')
+  | none => NoRq o ∧ (e.isNone = true → s'.pieceRx = none)
+
+/-- A step in which the manager's reply (re)assigns: the first two tiles of the new piece, or nothing. -/
+theorem accept_assign (sha1 : Bytes → Bytes) (st : M10) (s s' : HState) (inp : TIn) (o : List HOut) (e : Option Bool)
+    (hR : R10 st s) (ha : s.alive = true)
+    (hnp : ∀ i b blk rep d, inp ≠ .frame (.piece i b blk) rep d)
+    (hsd : NoSD o) (x : Option ReqData) (hasg : assigned inp (o.filterMap (obsOf sha1)) = some x)
+    (hs' : s'.alive = e.isNone)
+    (hx : AssignRes o s' e x) :
+    ∃ st', step10 BS st (inp, o.filterMap (obsOf sha1), e) = some st' ∧ R10 st' s' := by
+  obtain ⟨hRa, hRs⟩ := hR
+  have hlive : (!st.alive) = false := by rw [hRa, ha]; rfl
+  have hsv : savedObs (o.filterMap (obsOf sha1)) = [] := by rw [savedObs_obs]; exact nosd_saves sha1 o hsd
+  cases x with
+  | some rd =>
+    obtain ⟨c, rx', ht, hsent, hrel⟩ := hx
+    refine ⟨{ cur := some c, alive := e.isNone }, ?_, ⟨hs'.symm, fun hal => ?_⟩⟩
+    · simp only [step10, hlive, Bool.false_eq_true, if_false, step10c_nonpiece st inp _ e hnp hsv, finish10, hasg,
+        requestWrites_obs]
+      have : takeRequests BS { idx := rd.index, plen := rd.length, sent := 0, outstanding := [] } (rqO o) = some c := ht
+      rw [this]
+      simp only []
+      exact if_pos hsent
+    · have he : e.isNone = true := by rw [← hs']; exact hal
+      obtain ⟨h1, h2⟩ := hrel he
+      show curRel BS (some c) s'.pieceRx
+      rw [h1]; exact h2
+  | none =>
+    obtain ⟨hrq, hnone⟩ := hx
+    have hreq : requestWrites (o.filterMap (obsOf sha1)) = [] := by rw [requestWrites_obs]; exact hrq
+    refine ⟨{ cur := none, alive := e.isNone }, ?_, ⟨hs'.symm, fun hal => ?_⟩⟩
+    · simp only [step10, hlive, Bool.false_eq_true, if_false, step10c_nonpiece st inp _ e hnp hsv, finish10, hasg, hreq]
+      simp
+    · have he : e.isNone = true := by rw [← hs']; exact hal
+      show curRel BS none s'.pieceRx
+      rw [hnone he]; trivial
+
+theorem rqO_flush (l : List Nat) : rqO (l.map fun i => HOut.write (.haveP i)) = [] := by
+  induction l with
+  | nil => rfl
+  | cons x xs ih => simp only [List.map_cons, rqO, List.filterMap_cons] at ih ⊢; exact ih
+
+theorem sdO_flush (l : List Nat) : NoSD (l.map fun i => HOut.write (.haveP i)) := by
+  induction l with
+  | nil => rfl
+  | cons x xs ih => simp only [List.map_cons, NoSD, sdO, List.filterMap_cons] at ih ⊢; exact ih
+
+theorem cmO_flush (l : List Nat) : cmO (l.map fun i => HOut.write (.haveP i)) = [] := by
+  induction l with
+  | nil => rfl
+  | cons x xs ih => simp only [List.map_cons, cmO, List.filterMap_cons] at ih ⊢; exact ih
+
+/-- What the reply of `PieceDone`/`PieceCancel` (or `Unchoke`) leads to, in the monitor's terms. -/
+theorem assign_of_npr (s : HState) (wi : Bool) (rd : ReqData) (pre : List HOut) (hpre : rqO pre = []) (e : Option Bool) :
+    ∃ c rx', takeRequests BS (c0Of rd) (rqO (pre ++ (newPieceRequest s wi rd).2)) = some c ∧
+      c.sent = min 2 (totalOf BS (c0Of rd)) ∧
+      (e.isNone = true → (newPieceRequest s wi rd).1.pieceRx = some rx' ∧ RelC BS c rx') := by
+  obtain ⟨c, rx', ht, hp, hr, hs⟩ := newPieceRequest_rel s wi rd
+  exact ⟨c, rx', by rw [rqO_append, hpre, List.nil_append]; exact ht, hs, fun _ => ⟨hp, hr⟩⟩
+
+theorem pieceFinishReply_rq (s : HState) (hs : s.pieceRx = none) (rep : Rep) (s' : HState) (o : List HOut) (b : Bool)
+    (h : pieceFinishReply s rep = some (s', o, b)) (pre : List HOut) (hpre : rqO pre = []) (e : Option Bool) :
+    AssignRes (pre ++ o) s' e (repReq01 rep) := by
+  unfold pieceFinishReply at h
+  split at h
+  · rename_i rd
+    simp only [Option.some.injEq, Prod.mk.injEq] at h
+    obtain ⟨h1, h2, _⟩ := h
+    rw [← h1, ← h2]
+    exact assign_of_npr s false rd pre hpre e
+  · cases h; exact ⟨by show rqO (pre ++ _) = []; rw [rqO_append, hpre]; rfl, fun _ => hs⟩
+  · cases h; exact ⟨by show rqO (pre ++ _) = []; rw [rqO_append, hpre]; rfl, fun _ => hs⟩
+  · cases h; exact ⟨by show rqO (pre ++ _) = []; rw [rqO_append, hpre]; rfl, fun _ => hs⟩
+  · cases h
+
+
+theorem assignRes_go (o : List HOut) (s1 s' : HState) (e : Option Bool) (x : Option ReqData)
+    (h : AssignRes o s1 (none : Option Bool) x) (hs : e.isNone = true → s' = s1) : AssignRes o s' e x := by
+  cases x with
+  | some rd =>
+    obtain ⟨c, rx', h1, h2, h3⟩ := h
+    exact ⟨c, rx', h1, h2, fun he => by rw [hs he]; exact h3 rfl⟩
+  | none =>
+    obtain ⟨h1, h2⟩ := h
+    exact ⟨h1, fun he => by rw [hs he]; exact h2 rfl⟩
+
+theorem assignRes_npr (s : HState) (wi : Bool) (rd : ReqData) (pre : List HOut) (hpre : rqO pre = []) :
+    AssignRes (pre ++ (newPieceRequest s wi rd).2) (newPieceRequest s wi rd).1 (none : Option Bool) (some rd) := by
+  obtain ⟨c, rx', h1, h2, h3⟩ := assign_of_npr s wi rd pre hpre (none : Option Bool)
+  exact ⟨c, rx', h1, h2, h3⟩
+
+theorem cur1Of_piece (st : M10) (i b : Nat) (blk : Bytes) (rep : Rep) (d : Option (Bytes × Bytes)) :
+    cur1Of st (.frame (.piece i b blk) rep d) =
+      (match st.cur with
+       | some c =>
+         if i = c.idx ∧ c.outstanding.contains (b, blk.length) then
+           (some { c with outstanding := c.outstanding.filter (· ≠ (b, blk.length)) }, true)
+         else (some c, false)
+       | none => (none, false)) := by
+  cases hc : st.cur <;> simp [cur1Of, hc]
+
+theorem cmO_sendRequest (s : HState) : cmO (sendRequest s).2 = [] := by
+  unfold sendRequest; split
+  · split <;> rfl
+  · rfl
+
+/-- `handle_piece` against the monitor. -/
+theorem piece_sound (sha1 : Bytes → Bytes) (st : M10) (s0 : HState) (hrel : curRel BS st.cur s0.pieceRx)
+    (idx b : Nat) (blk : Bytes) (rep : Rep) (d : Option (Bytes × Bytes)) (s1 : HState) (o : List HOut) (c : Cont)
+    (h : onPiece sha1 s0 idx b blk rep = some (s1, o, c)) (e : Option Bool)
+    (hec : (c = .go ∧ e = none) ∨ (c ≠ .go ∧ e.isNone = false)) :
+    ∃ st', step10c BS st (.frame (.piece idx b blk) rep d) (o.filterMap (obsOf sha1)) e = some st' ∧
+      st'.alive = e.isNone ∧ (c = .go → curRel BS st'.cur s1.pieceRx) := by
+  simp only [onPiece] at h
+  cases hprx : s0.pieceRx with
+  | none =>
+    -- nothing is being downloaded: the block is ignored
+    rw [hprx] at h hrel
+    simp only [Option.some.injEq, Prod.mk.injEq] at h
+    obtain ⟨rfl, rfl, rfl⟩ := h
+    have hcur : st.cur = none := by
+      cases hc : st.cur with
+      | none => rfl
+      | some cc => rw [hc] at hrel; exact absurd hrel (by simp [curRel])
+    refine ⟨{ cur := none, alive := e.isNone }, ?_, rfl, fun _ => by rw [hprx]; trivial⟩
+    simp only [step10c, cur1Of_piece, hcur, completesOf, List.filterMap_nil, savedObs, finish10, assigned, cmds, requestWrites, writes]
+    simp
+  | some rx =>
+    rw [hprx] at h hrel
+    simp only at h
+    obtain ⟨cc, hcur⟩ : ∃ cc, st.cur = some cc := by
+      cases hc : st.cur with
+      | none => rw [hc] at hrel; exact absurd hrel (by simp [curRel])
+      | some cc => exact ⟨cc, rfl⟩
+    rw [hcur] at hrel
+    obtain ⟨r1, r2, r3, r4⟩ : RelC BS cc rx := hrel
+    by_cases hacc : rx.index ≠ idx ∨ ¬ rx.requested.contains (b, blk.length) = true
+    · -- not an answer to an outstanding request: nothing happens
+      rw [if_pos hacc] at h
+      simp only [Option.some.injEq, Prod.mk.injEq] at h
+      obtain ⟨rfl, rfl, rfl⟩ := h
+      have hcond : ¬ (idx = cc.idx ∧ cc.outstanding.contains (b, blk.length) = true) := by
+        rw [← r1, ← r2]
+        intro hh
+        rcases hacc with h1 | h1
+        · exact h1 hh.1.symm
+        · exact h1 hh.2
+      refine ⟨{ cur := some cc, alive := e.isNone }, ?_, rfl, fun _ => by rw [hprx]; exact ⟨r1, r2, r3, r4⟩⟩
+      simp only [step10c, cur1Of_piece, hcur, hcond, if_false, completesOf, Bool.false_and, List.filterMap_nil, savedObs,
+        finish10, assigned, cmds, requestWrites, writes]
+      simp [takeRequests]
+    · rw [if_neg hacc] at h
+      have hidx : rx.index = idx := by
+        by_cases hh : rx.index = idx
+        · exact hh
+        · exact absurd (Or.inl hh) hacc
+      have hcont : rx.requested.contains (b, blk.length) = true := by
+        cases hh : rx.requested.contains (b, blk.length) with
+        | true => rfl
+        | false => exact absurd (Or.inr (by rw [hh]; exact Bool.false_ne_true)) hacc
+      have hcond : idx = cc.idx ∧ cc.outstanding.contains (b, blk.length) = true := by
+        rw [← r1, ← r2]; exact ⟨hidx.symm, hcont⟩
+      -- the monitor's record after the accepted block
+      let c1 : Cur := { cc with outstanding := cc.outstanding.filter (· ≠ (b, blk.length)) }
+      let rx1 : Rx := { rx with requested := rx.requested.filter (· ≠ (b, blk.length)), buff := writeSlice rx.buff b blk }
+      have hrel1 : RelC BS c1 rx1 := ⟨r1, by simp [rx1, c1, r2], r3, r4⟩
+      have hc1 : cur1Of st (.frame (.piece idx b blk) rep d) = (some c1, true) := by
+        rw [cur1Of_piece, hcur]; simp only []; rw [if_pos hcond]
+      have hleft : rx1.left.isEmpty = decide (cc.sent = totalOf BS cc) := by
+        show rx.left.isEmpty = _
+        rw [r3]
+        by_cases hs : cc.sent = totalOf BS cc
+        · simp [hs, totalOf]
+        · have : cc.sent < (leftBlocks BS cc.plen).length := by unfold totalOf at hs; omega
+          simp only [hs, decide_false]
+          cases hd : (leftBlocks BS cc.plen).drop cc.sent with
+          | nil => have := List.drop_eq_nil_iff.mp hd; omega
+          | cons _ _ => rfl
+      have hcomp : completesOf BS (some c1) true = (rx1.left.isEmpty && rx1.requested.isEmpty) := by
+        have e1 : c1.outstanding.isEmpty = rx1.requested.isEmpty := by
+          show (cc.outstanding.filter _).isEmpty = (rx.requested.filter _).isEmpty
+          rw [r2]
+        have e2 : decide (c1.sent = totalOf BS c1) = rx1.left.isEmpty := hleft.symm
+        simp only [completesOf, Bool.true_and]
+        rw [e1, e2]
+        exact Bool.and_comm _ _
+      by_cases hdone : rx1.left.isEmpty = true ∧ rx1.requested.isEmpty = true
+      · -- the last outstanding block of a fully requested piece
+        rw [if_pos hdone] at h
+        have hcomp' : completesOf BS (some c1) true = true := by rw [hcomp, hdone.1, hdone.2]; rfl
+        by_cases hbad : sha1 rx1.buff ≠ rx1.hash
+        · -- hash mismatch: the task ends, nothing is stored
+          rw [if_pos hbad] at h
+          simp only [Option.some.injEq, Prod.mk.injEq] at h
+          obtain ⟨rfl, rfl, rfl⟩ := h
+          have hend : e.isNone = false := by
+            rcases hec with ⟨hc', _⟩ | ⟨_, h2⟩
+            · cases hc'
+            · exact h2
+          refine ⟨{ cur := none, alive := e.isNone }, ?_, rfl, fun hc' => by cases hc'⟩
+          simp only [step10c, hc1, hcomp', List.filterMap_nil, savedObs, finish10, assigned, cmds, requestWrites, writes, hend]
+          simp
+        · rw [if_neg hbad] at h
+          -- stored and reported; the reply decides what is next
+          cases hpf : pieceFinishReply { s0 with pieceRx := none } rep with
+          | none => rw [hpf] at h; cases h
+          | some t =>
+            obtain ⟨s2, o2, bb⟩ := t
+            rw [hpf] at h
+            have hres : s1 = s2 ∧ o = [HOut.save rx1.hash rx1.buff, HOut.cmd Cmd.pieceDone] ++ o2 := by
+              cases bb <;> (simp only [Option.some.injEq, Prod.mk.injEq] at h; exact ⟨h.1.symm, h.2.1.symm⟩)
+            obtain ⟨rfl, rfl⟩ := hres
+            obtain ⟨_, hq2⟩ := pieceFinishReply_sd { s0 with pieceRx := none } rfl rep s1 o2 bb hpf
+            have hcm2 := cmO_pfr _ _ _ _ _ hpf
+            have hsv : savedObs (([HOut.save rx1.hash rx1.buff, HOut.cmd Cmd.pieceDone] ++ o2).filterMap (obsOf sha1)) =
+                [(rx1.hash, sha1 rx1.buff, rx1.buff.length)] := by
+              rw [savedObs_obs, savesO_append, nosd_saves sha1 o2 hq2]; rfl
+            have hasg : assigned (.frame (.piece idx b blk) rep d) (([HOut.save rx1.hash rx1.buff, HOut.cmd Cmd.pieceDone] ++ o2).filterMap (obsOf sha1)) =
+                some (repReq01 rep) := by
+              simp only [assigned, cmds_obs, cmO_append, hcm2]
+              simp [cmO]
+              try (cases rep <;> rfl)
+            have hpre : rqO [HOut.save rx1.hash rx1.buff, HOut.cmd Cmd.pieceDone] = [] := rfl
+            have hx := pieceFinishReply_rq { s0 with pieceRx := none } rfl rep s1 o2 bb hpf _ hpre e
+            cases hrr : repReq01 rep with
+            | some rd =>
+              rw [hrr] at hx hasg
+              obtain ⟨cN, rxN, ht, hsent, hrelN⟩ := hx
+              refine ⟨{ cur := some cN, alive := e.isNone }, ?_, rfl, fun hc' => ?_⟩
+              · simp only [step10c, hc1, hcomp', hsv, finish10, hasg, requestWrites_obs]
+                have : takeRequests BS { idx := rd.index, plen := rd.length, sent := 0, outstanding := [] }
+                    (rqO ([HOut.save rx1.hash rx1.buff, HOut.cmd Cmd.pieceDone] ++ o2)) = some cN := ht
+                rw [this]
+                simp only [List.isEmpty_cons, Bool.not_false, Bool.not_true, Bool.and_false, Bool.false_eq_true, if_false,
+                  Bool.and_true, Bool.true_and, Bool.false_and]
+                exact if_pos hsent
+              · have he : e.isNone = true := by
+                  rcases hec with ⟨_, rfl⟩ | ⟨h1, _⟩
+                  · rfl
+                  · exact absurd hc' h1
+                obtain ⟨h1, h2⟩ := hrelN he
+                show curRel BS (some cN) s1.pieceRx
+                rw [h1]; exact h2
+            | none =>
+              rw [hrr] at hx hasg
+              obtain ⟨hnrq, hnone⟩ := hx
+              have hreq : requestWrites (([HOut.save rx1.hash rx1.buff, HOut.cmd Cmd.pieceDone] ++ o2).filterMap (obsOf sha1)) = [] := by
+                rw [requestWrites_obs]; exact hnrq
+              refine ⟨{ cur := none, alive := e.isNone }, ?_, rfl, fun hc' => ?_⟩
+              · simp only [step10c, hc1, hcomp', hsv, finish10, hasg, hreq]
+                simp
+              · have he : e.isNone = true := by
+                  rcases hec with ⟨_, rfl⟩ | ⟨h1, _⟩
+                  · rfl
+                  · exact absurd hc' h1
+                show curRel BS none s1.pieceRx
+                rw [hnone he]; trivial
+      · -- more to come: at most one further request
+        rw [if_neg hdone] at h
+        simp only [Option.some.injEq, Prod.mk.injEq] at h
+        obtain ⟨hs1, ho, hcgo⟩ := h
+        have ho' : o = (sendRequest { s0 with pieceRx := some rx1 }).2 := ho.symm
+        have hs1' : s1 = (sendRequest { s0 with pieceRx := some rx1 }).1 := hs1.symm
+        rw [ho', hs1']
+        have hcomp' : completesOf BS (some c1) true = false := by
+          rw [hcomp]
+          cases h1 : rx1.left.isEmpty <;> cases h2 : rx1.requested.isEmpty <;> simp_all
+        obtain ⟨c', rx', ht, hp, hr, _, _, hs⟩ :=
+          sendRequest_rel BS { s0 with pieceRx := some rx1 } rx1 c1 rfl hrel1
+        have hsd := (sendRequest_sd { s0 with pieceRx := some rx1 }).2
+        have hsv : savedObs ((sendRequest { s0 with pieceRx := some rx1 }).2.filterMap (obsOf sha1)) = [] := by
+          rw [savedObs_obs]; exact nosd_saves sha1 _ hsd
+        have hasg : assigned (.frame (.piece idx b blk) rep d) ((sendRequest { s0 with pieceRx := some rx1 }).2.filterMap (obsOf sha1)) = none := by
+          simp only [assigned, cmds_obs, cmO_sendRequest]; rfl
+        refine ⟨{ cur := some c', alive := e.isNone }, ?_, rfl, fun _ => by show curRel BS (some c') _; rw [hp]; exact hr⟩
+        simp only [step10c, hc1, hcomp', hsv, finish10, hasg, requestWrites_obs]
+        have : takeRequests BS c1 (rqO (sendRequest { s0 with pieceRx := some rx1 }).2) = some c' := ht
+        rw [this]
+        simp only [List.isEmpty_nil, Bool.not_true, Bool.false_and, Bool.false_eq_true, if_false, Bool.and_false, Bool.true_and]
+        by_cases hlt : c1.sent < (leftBlocks BS c1.plen).length
+        · have hd : decide (c1.sent < totalOf BS c1) = true := decide_eq_true hlt
+          rw [if_pos hlt] at hs
+          simp only [hd, if_true]
+          exact if_pos hs
+        · have hd : decide (c1.sent < totalOf BS c1) = false := decide_eq_false hlt
+          rw [if_neg hlt] at hs
+          simp only [hd, Bool.false_eq_true, if_false]
+          exact if_pos hs
+
+
+theorem norq_replicate_ka (n : Nat) : NoRq (List.replicate n (HOut.write Msg.keepAlive)) ∧ NoSD (List.replicate n (HOut.write Msg.keepAlive)) := by
+  induction n with
+  | zero => exact ⟨rfl, rfl⟩
+  | succ n ih =>
+    obtain ⟨h1, h2⟩ := ih
+    simp only [List.replicate_succ]
+    exact ⟨by simp only [NoRq, rqO, List.filterMap_cons] at h1 ⊢; exact h1, by simp only [NoSD, sdO, List.filterMap_cons] at h2 ⊢; exact h2⟩
+
+theorem cancels_quiet (i : Nat) (l : List (Nat × Nat)) :
+    rqO (l.map fun bl => HOut.write (.cancel i bl.1 bl.2)) = [] ∧ NoSD (l.map fun bl => HOut.write (.cancel i bl.1 bl.2)) ∧
+    cmO (l.map fun bl => HOut.write (.cancel i bl.1 bl.2)) = [] := by
+  induction l with
+  | nil => exact ⟨rfl, rfl, rfl⟩
+  | cons x xs ih =>
+    obtain ⟨h1, h2, h3⟩ := ih
+    simp only [List.map_cons]
+    exact ⟨by simp only [rqO, List.filterMap_cons] at h1 ⊢; exact h1,
+      by simp only [NoSD, sdO, List.filterMap_cons] at h2 ⊢; exact h2,
+      by simp only [cmO, List.filterMap_cons] at h3 ⊢; exact h3⟩
+
+theorem step10_sound (sha1 : Bytes → Bytes) (st : M10) (s : HState) (inp : TIn) (s' : HState) (o : List HOut)
+    (e : Option Bool) (hR : R10 st s) (hI' : s.alive = true → s.pieceRx ≠ none → s.hsDone = true)
+    (h : tstep sha1 s inp = some (s', o, e)) :
+    ∃ st', step10 BS st (inp, o.filterMap (obsOf sha1), e) = some st' ∧ R10 st' s' := by
+  cases ha : s.alive with
+  | false =>
+    rw [tstep_dead sha1 s ha inp] at h; cases h
+    refine ⟨st, ?_, hR⟩
+    simp [step10, hR.1, ha, deadOk]
+  | true =>
+    have hg : (!s.alive) = false := by simp [ha]
+    have hlive : (!st.alive) = false := by rw [hR.1, ha]; rfl
+    have hrel := hR.2 ha
+    have hI := hI' ha
+    cases inp with
+    | ticks k =>
+      simp only [tstep, ticks_facts s ha, Option.some.injEq, Prod.mk.injEq] at h
+      obtain ⟨rfl, rfl, rfl⟩ := h
+      obtain ⟨hq1, hq2⟩ := norq_replicate_ka (kaRun KEEP_ALIVE_LIMIT s.keepAlive k).1
+      refine accept_keep sha1 st s _ _ _ _ hR ha (by simp) hq2 hq1 rfl ⟨?_, fun _ => rfl⟩
+      generalize (kaRun KEEP_ALIVE_LIMIT s.keepAlive k).2.2 = b
+      cases b <;> rfl
+    | eof =>
+      simp only [tstep, hstep, hg, Bool.false_eq_true, if_false, terminate] at h
+      cases h
+      exact accept_keep sha1 st s _ _ _ _ hR ha (by simp) rfl rfl rfl ⟨rfl, fun c => by cases c⟩
+    | recvErr =>
+      simp only [tstep, hstep, hg, Bool.false_eq_true, if_false, terminate] at h
+      cases h
+      exact accept_keep sha1 st s _ _ _ _ hR ha (by simp) rfl rfl rfl ⟨rfl, fun c => by cases c⟩
+    | bcState en =>
+      simp only [tstep, hstep, hg, Bool.false_eq_true, if_false] at h
+      split at h <;> cases h <;>
+        exact accept_keep sha1 st s _ _ _ _ hR ha (by simp) rfl rfl rfl ⟨ha, fun _ => rfl⟩
+    | start rep =>
+      simp only [tstep, hstart, hg, Bool.false_eq_true, if_false] at h
+      split at h
+      · cases rep with
+        | bitfield bs =>
+          simp only [initHandshake, Option.some.injEq, Prod.mk.injEq] at h
+          obtain ⟨rfl, rfl, rfl⟩ := h
+          exact accept_keep sha1 st s _ _ _ _ hR ha (by simp) rfl rfl rfl ⟨ha, fun _ => rfl⟩
+        | _ => simp [initHandshake] at h
+      · cases h
+        exact accept_keep sha1 st s _ _ _ _ hR ha (by simp) rfl rfl rfl ⟨ha, fun _ => rfl⟩
+    | bcHave i rep =>
+      simp only [tstep, hstep, hg, Bool.false_eq_true, if_false] at h
+      have outer : ∀ (s1 : HState) (o1 : List HOut), s1.alive = true →
+          (if s1.choked = true then some ({ s1 with msgBuff := s1.msgBuff ++ [i] }, o1, none)
+            else some (s1, o1 ++ [HOut.write (Msg.haveP i)], none)) = some (s', o, e) →
+          e = none ∧ s'.pieceRx = s1.pieceRx ∧ s'.alive = true ∧ cmO o = cmO o1 ∧ rqO o = rqO o1 ∧ sdO o = sdO o1 := by
+        intro s1 o1 hal hm
+        split at hm
+        · cases hm; exact ⟨rfl, rfl, hal, rfl, rfl, rfl⟩
+        · cases hm
+          exact ⟨rfl, rfl, hal, by rw [cmO_append]; simp [cmO], by rw [rqO_append]; simp [rqO], by rw [sdO_append]; simp [sdO]⟩
+      cases hrx : s.pieceRx with
+      | none =>
+        rw [hrx] at h
+        obtain ⟨rfl, hp, hal, hcm, hrq, hsd⟩ := outer s [] ha h
+        have hasg : assigned (.bcHave i rep) (o.filterMap (obsOf sha1)) = none := by
+          simp only [assigned, cmds_obs, hcm]; rfl
+        exact accept_keep sha1 st s _ _ _ _ hR ha (by simp) hsd hrq hasg ⟨by simp [hal], fun _ => hp⟩
+      | some rx =>
+        rw [hrx] at h
+        simp only at h
+        by_cases hi : rx.index = i
+        · simp only [hi, if_true] at h
+          cases hpf : pieceFinishReply { s with pieceRx := none } rep with
+          | none => rw [hpf] at h; cases h
+          | some t =>
+            obtain ⟨s2, o2, b2⟩ := t
+            rw [hpf] at h
+            simp only at h
+            obtain ⟨_, hq2⟩ := pieceFinishReply_sd { s with pieceRx := none } rfl rep s2 o2 b2 hpf
+            obtain ⟨_, hal2, _⟩ := pieceFinishReply_core _ _ _ _ _ hpf
+            have hcm2 := cmO_pfr _ _ _ _ _ hpf
+            obtain ⟨hcr, hcs, hcc⟩ := cancels_quiet i rx.requested
+            obtain ⟨rfl, hp, hal, hcm, hrq, hsd⟩ := outer s2 _ (by rw [hal2]; exact ha) h
+            have hpre : rqO (List.map (fun bl => HOut.write (Msg.cancel i bl.1 bl.2)) rx.requested ++ [HOut.cmd Cmd.pieceCancel]) = [] := by
+              rw [rqO_append, hcr]; rfl
+            have hasg : assigned (.bcHave i rep) (o.filterMap (obsOf sha1)) = some (repReq01 rep) := by
+              simp only [assigned, cmds_obs, hcm, cmO_append, hcc, hcm2]
+              simp [cmO]
+              try (cases rep <;> rfl)
+            have hsd' : NoSD o := by
+              show sdO o = []
+              rw [hsd, sdO_append, sdO_append, hcs, hq2]; rfl
+            have hx := pieceFinishReply_rq { s with pieceRx := none } rfl rep s2 o2 b2 hpf _ hpre (none : Option Bool)
+            refine accept_assign sha1 st s _ _ _ _ hR ha (by simp) hsd' (repReq01 rep) hasg (by simp [hal]) ?_
+            cases hrr : repReq01 rep with
+            | some rd =>
+              rw [hrr] at hx
+              obtain ⟨cN, rxN, ht, hsent, hrelN⟩ := hx
+              refine ⟨cN, rxN, ?_, hsent, fun _ => ?_⟩
+              · rw [hrq]; exact ht
+              · obtain ⟨h1, h2⟩ := hrelN rfl
+                exact ⟨by rw [hp]; exact h1, h2⟩
+            | none =>
+              rw [hrr] at hx
+              obtain ⟨hnrq, hnone⟩ := hx
+              exact ⟨by show rqO o = []; rw [hrq]; exact hnrq, fun _ => by rw [hp]; exact hnone rfl⟩
+        · simp only [hi, if_false] at h
+          obtain ⟨rfl, hp, hal, hcm, hrq, hsd⟩ := outer s [] ha h
+          have hasg : assigned (.bcHave i rep) (o.filterMap (obsOf sha1)) = none := by
+            simp only [assigned, cmds_obs, hcm]; rfl
+          exact accept_keep sha1 st s _ _ _ _ hR ha (by simp) hsd hrq hasg ⟨by simp [hal], fun _ => hp⟩
+    | frame m rep d =>
+      simp only [tstep, hstep, hg, Bool.false_eq_true, if_false] at h
+      cases hf : handleFrame sha1 (diskOf d) s m rep with
+      | none => rw [hf] at h; cases h
+      | some r =>
+        obtain ⟨s1, o1, c⟩ := r
+        rw [hf] at h
+        obtain ⟨_, hal1, _⟩ := handleFrame_core sha1 _ s m rep s1 o1 c hf
+        have hres : o = o1 ∧ ((c = .go ∧ s' = s1 ∧ e = none) ∨ (c ≠ .go ∧ s'.alive = false ∧ e.isNone = false)) := by
+          cases c with
+          | go => cases h; exact ⟨rfl, Or.inl ⟨rfl, rfl, rfl⟩⟩
+          | endNormal => simp only [terminate] at h; cases h; exact ⟨rfl, Or.inr ⟨by simp, rfl, rfl⟩⟩
+          | endError => simp only [terminate] at h; cases h; exact ⟨rfl, Or.inr ⟨by simp, rfl, rfl⟩⟩
+        obtain ⟨rfl, hcase⟩ := hres
+        have halive' : s'.alive = e.isNone := by
+          rcases hcase with ⟨_, rfl, rfl⟩ | ⟨_, h1, h2⟩
+          · rw [hal1]; exact ha
+          · rw [h1, h2]
+        have hgo : ∀ (P : HState → Prop), (c = .go → P s1) → e.isNone = true → P s' := by
+          intro P hp he
+          rcases hcase with ⟨hc', rfl, _⟩ | ⟨_, _, h2⟩
+          · exact hp hc'
+          · rw [h2] at he; cases he
+        unfold handleFrame at hf
+        simp only at hf
+        by_cases hgate : (!s.hsDone && !isHandshake m) = true
+        · -- refused before the handshake
+          rw [if_pos hgate] at hf
+          cases hf
+          have hend : e.isNone = false := by
+            rcases hcase with ⟨hc', _, _⟩ | ⟨_, _, h2⟩
+            · cases hc'
+            · exact h2
+          cases m with
+          | piece idx b blk =>
+            -- a `Piece` frame before the handshake: nothing is being downloaded yet; nothing happens, the task ends
+            have hnd : s.hsDone = false := by
+              cases hh : s.hsDone with
+              | false => rfl
+              | true => simp [hh, isHandshake] at hgate
+            have hprx : s.pieceRx = none := by
+              cases hp : s.pieceRx with
+              | none => rfl
+              | some rx => have := hI (by rw [hp]; simp); rw [hnd] at this; cases this
+            have hcur : st.cur = none := by
+              cases hc : st.cur with
+              | none => rfl
+              | some cc => rw [hc, hprx] at hrel; exact absurd hrel (by simp [curRel])
+            refine ⟨{ cur := none, alive := e.isNone }, ?_, ⟨by simp [halive'], fun hh => by rw [halive', hend] at hh; cases hh⟩⟩
+            simp only [step10, hlive, Bool.false_eq_true, if_false, step10c, cur1Of_piece, hcur, completesOf, List.filterMap_nil,
+              savedObs, finish10, assigned, cmds, requestWrites, writes, hend]
+            simp
+          | _ =>
+            refine accept_keep sha1 st s _ _ _ _ hR ha (by simp) rfl rfl ?_ ⟨halive', fun he => by rw [hend] at he; cases he⟩
+            rfl
+        · -- dispatched
+          rw [if_neg hgate] at hf
+          cases m with
+          | handshake ih pid =>
+            simp only [dispatch] at hf
+            have hq : NoSD o ∧ NoRq o ∧ (c = .go → s1.pieceRx = s.pieceRx) := by
+              rcases onHandshake_cases _ ih pid rep s1 o c hf with ⟨_, rfl, rfl, rfl⟩ | ⟨_, _, rfl, rfl, bs, rfl⟩ | ⟨_, _, rfl, rfl, rfl⟩
+              · exact ⟨rfl, rfl, fun c => by cases c⟩
+              · exact ⟨rfl, rfl, fun _ => rfl⟩
+              · exact ⟨rfl, rfl, fun _ => rfl⟩
+            exact accept_keep sha1 st s _ _ _ _ hR ha (by simp) hq.1 hq.2.1 rfl
+              ⟨halive', fun he => hgo (fun x => x.pieceRx = s.pieceRx) hq.2.2 he⟩
+          | unchoke =>
+            simp only [dispatch] at hf
+            obtain ⟨_, _, _, rest, rfl, _⟩ := onUnchoke_adv _ rep s1 _ c hf
+            have hpre : rqO (List.map (fun i => HOut.write (Msg.haveP i)) s.msgBuff ++ [HOut.cmd Cmd.recvUnchoke]) = [] := by
+              rw [rqO_append, rqO_flush]; rfl
+            -- what the reply assigns
+            have hs1 : e.isNone = true → s' = s1 := by
+              intro he
+              rcases hcase with ⟨_, h2, _⟩ | ⟨_, _, h2⟩
+              · exact h2
+              · rw [h2] at he; cases he
+            have hdet : NoSD rest ∧ cmO rest = [] ∧
+                AssignRes (List.map (fun i => HOut.write (Msg.haveP i)) s.msgBuff ++ [HOut.cmd Cmd.recvUnchoke] ++ rest) s1 (none : Option Bool) (repReq01 rep) := by
+              unfold onUnchoke at hf
+              simp only at hf
+              split at hf
+              · rename_i rd wi
+                simp only [Option.some.injEq, Prod.mk.injEq] at hf
+                obtain ⟨h1, h2, _⟩ := hf
+                have hr : rest = (newPieceRequest { s with keepAlive := kaAfter Msg.unchoke s.keepAlive, choked := false, msgBuff := [] } wi rd).2 :=
+                  (List.append_cancel_left h2).symm
+                have hnp := newPieceRequest_sd { s with keepAlive := kaAfter Msg.unchoke s.keepAlive, choked := false, msgBuff := [] } wi rd
+                rw [hr, ← h1]
+                exact ⟨hnp.2, cmO_npr _ _ _, assignRes_npr _ wi rd _ hpre⟩
+              · simp only [Option.some.injEq, Prod.mk.injEq] at hf
+                obtain ⟨h1, h2, _⟩ := hf
+                have hr : rest = [HOut.write Msg.notInterested] := (List.append_cancel_left h2).symm
+                rw [hr, ← h1]
+                exact ⟨rfl, rfl, by show rqO _ = []; rw [rqO_append, hpre]; rfl, fun _ => rfl⟩
+              · simp only [Option.some.injEq, Prod.mk.injEq] at hf
+                obtain ⟨h1, h2, _⟩ := hf
+                have hr : rest = [] := by
+                  have : List.map (fun i => HOut.write (Msg.haveP i)) s.msgBuff ++ [HOut.cmd Cmd.recvUnchoke] ++ [] =
+                      List.map (fun i => HOut.write (Msg.haveP i)) s.msgBuff ++ [HOut.cmd Cmd.recvUnchoke] ++ rest := by
+                    simpa using h2
+                  exact (List.append_cancel_left this).symm
+                rw [hr, ← h1]
+                exact ⟨rfl, rfl, by show rqO _ = []; rw [rqO_append, hpre]; rfl, fun _ => rfl⟩
+              · cases hf
+            have hasg : assigned (.frame .unchoke rep d) ((List.map (fun i => HOut.write (Msg.haveP i)) s.msgBuff ++ [HOut.cmd Cmd.recvUnchoke] ++ rest).filterMap (obsOf sha1)) =
+                some (repReq01 rep) := by
+              simp only [assigned, cmds_obs, cmO_append, cmO_flush, hdet.2.1]
+              simp [cmO]
+              try (cases rep <;> rfl)
+            exact accept_assign sha1 st s _ _ _ _ hR ha (by simp) (nosd_append (nosd_append (sdO_flush _) (rfl : NoSD [HOut.cmd Cmd.recvUnchoke])) hdet.1)
+              (repReq01 rep) hasg halive' (assignRes_go _ s1 s' e _ hdet.2.2 hs1)
+          | haveP i =>
+            simp only [dispatch, onHave] at hf
+            split at hf
+            · cases hf
+              refine accept_keep sha1 st s _ _ _ _ hR ha (by simp) rfl rfl rfl ⟨halive', fun he => ?_⟩
+              rcases hcase with ⟨hc', _, _⟩ | ⟨_, _, h2⟩
+              · cases hc'
+              · rw [h2] at he; cases he
+            · split at hf
+              · rename_i rd
+                cases hf
+                have hnp := newPieceRequest_sd { s with keepAlive := kaAfter (Msg.haveP i) s.keepAlive } true rd
+                have hpre : rqO [HOut.cmd (Cmd.recvHave i)] = [] := rfl
+                have hs1 : e.isNone = true → s' = (newPieceRequest { s with keepAlive := kaAfter (Msg.haveP i) s.keepAlive } true rd).1 := by
+                  intro he
+                  rcases hcase with ⟨_, h2, _⟩ | ⟨_, _, h2⟩
+                  · exact h2
+                  · rw [h2] at he; cases he
+                have hasg : assigned (.frame (.haveP i) (.req rd true) d)
+                    (([HOut.cmd (Cmd.recvHave i)] ++ (newPieceRequest { s with keepAlive := kaAfter (Msg.haveP i) s.keepAlive } true rd).2).filterMap (obsOf sha1)) =
+                    some (some rd) := by
+                  simp only [assigned, cmds_obs, cmO_append, cmO_npr]
+                  simp [cmO]
+                exact accept_assign sha1 st s _ _ _ _ hR ha (by simp) (nosd_append (rfl : NoSD [HOut.cmd (Cmd.recvHave i)]) hnp.2) (some rd) hasg halive'
+                  (assignRes_go _ _ s' e _ (assignRes_npr _ true rd _ hpre) hs1)
+              · cases hf
+                exact accept_keep sha1 st s _ _ _ _ hR ha (by simp) rfl rfl rfl ⟨halive', fun he => hgo (fun x => x.pieceRx = s.pieceRx) (fun _ => rfl) he⟩
+              · cases hf
+                exact accept_keep sha1 st s _ _ _ _ hR ha (by simp) rfl rfl rfl ⟨halive', fun he => hgo (fun x => x.pieceRx = s.pieceRx) (fun _ => rfl) he⟩
+              · cases hf
+          | piece idx b blk =>
+            simp only [dispatch] at hf
+            have hec : (c = .go ∧ e = none) ∨ (c ≠ .go ∧ e.isNone = false) := by
+              rcases hcase with ⟨h1, _, h3⟩ | ⟨h1, _, h3⟩
+              · exact Or.inl ⟨h1, h3⟩
+              · exact Or.inr ⟨h1, h3⟩
+            obtain ⟨st', hst, hal', hrel'⟩ := piece_sound sha1 st { s with keepAlive := kaAfter (Msg.piece idx b blk) s.keepAlive } hrel idx b blk rep d s1 o c hf e hec
+            refine ⟨st', by simp only [step10, hlive, Bool.false_eq_true, if_false]; exact hst, ⟨by rw [hal', halive'], fun hh => ?_⟩⟩
+            have he : e.isNone = true := by rw [← halive']; exact hh
+            exact hgo (fun x => curRel BS st'.cur x.pieceRx) hrel' he
+          | keepAlive | choke | interested | notInterested | bitfield _ | request _ _ _ | cancel _ _ _ =>
+            obtain ⟨hk, hq⟩ := dispatch_rq sha1 _ _ _ rep rfl (by simp) (by simp) (by simp) s1 _ c hf
+            obtain ⟨_, hsd⟩ := dispatch_sd sha1 _ _ _ rep rfl (by simp) (by simp) (by simp) s1 _ c hf
+            exact accept_keep sha1 st s _ _ _ _ hR ha (by simp) hsd hq rfl ⟨halive', fun he => hgo (fun x => x.pieceRx = s.pieceRx) (fun _ => hk) he⟩
+
+
+/-- A piece can only be in progress on a connection whose handshake has validated (so the gate of `handle_frame`
+    never refuses a block of a piece in progress). -/
+theorem hs_inv (sha1 : Bytes → Bytes) (s : HState) (inp : TIn) (s' : HState) (o : List HOut) (e : Option Bool)
+    (ha : s.alive = true) (hI : s.pieceRx ≠ none → s.hsDone = true) (h : tstep sha1 s inp = some (s', o, e)) :
+    s'.pieceRx ≠ none → s'.hsDone = true := by
+  have hg : (!s.alive) = false := by simp [ha]
+  cases inp with
+  | ticks k =>
+    simp only [tstep, ticks_facts s ha, Option.some.injEq, Prod.mk.injEq] at h
+    obtain ⟨rfl, _, _⟩ := h; exact hI
+  | eof => simp only [tstep, hstep, hg, Bool.false_eq_true, if_false, terminate] at h; cases h; exact hI
+  | recvErr => simp only [tstep, hstep, hg, Bool.false_eq_true, if_false, terminate] at h; cases h; exact hI
+  | bcState en =>
+    simp only [tstep, hstep, hg, Bool.false_eq_true, if_false] at h
+    split at h <;> cases h <;> exact hI
+  | start rep =>
+    simp only [tstep, hstart, hg, Bool.false_eq_true, if_false] at h
+    split at h
+    · split at h
+      · cases h; exact hI
+      · cases h
+    · cases h; exact hI
+  | bcHave i rep =>
+    simp only [tstep] at h
+    obtain ⟨_, _, _, _, _, _, hhs, _⟩ := hstep_bcHave_core sha1 _ s ha i rep s' o e h
+    intro hp
+    cases hrx : s.pieceRx with
+    | some rx => rw [hhs]; exact hI (by rw [hrx]; simp)
+    | none =>
+      -- nothing in progress: a `SendHave` cannot start a download
+      exfalso
+      simp only [hstep, hg, Bool.false_eq_true, if_false, hrx] at h
+      split at h <;> (cases h; first | exact hp rfl | exact hp hrx)
+  | frame m rep d =>
+    simp only [tstep, hstep, hg, Bool.false_eq_true, if_false] at h
+    cases hf : handleFrame sha1 (diskOf d) s m rep with
+    | none => rw [hf] at h; cases h
+    | some r =>
+      obtain ⟨s1, o1, c⟩ := r
+      rw [hf] at h
+      have hs' : s'.pieceRx = s1.pieceRx ∧ s'.hsDone = s1.hsDone := by
+        cases c <;> (simp only [terminate] at h; cases h; exact ⟨rfl, rfl⟩)
+      rw [hs'.1, hs'.2]
+      unfold handleFrame at hf
+      simp only at hf
+      by_cases hgate : (!s.hsDone && !isHandshake m) = true
+      · rw [if_pos hgate] at hf; cases hf; exact hI
+      · rw [if_neg hgate] at hf
+        cases hm : isHandshake m with
+        | true =>
+          cases m with
+          | handshake ih pid =>
+            simp only [dispatch] at hf
+            rcases onHandshake_cases _ ih pid rep s1 o1 c hf with ⟨_, rfl, _, _⟩ | ⟨_, _, rfl, _, _⟩ | ⟨_, _, rfl, _, _⟩
+            · exact hI
+            · intro _; rfl
+            · intro _; rfl
+          | _ => simp [isHandshake] at hm
+        | false =>
+          have hd : s.hsDone = true := by
+            cases hh : s.hsDone with
+            | true => rfl
+            | false => simp [hh, hm] at hgate
+          obtain ⟨_, _, _, _, _, hhs, _⟩ := dispatch_core sha1 _ _ m rep hm s1 o1 c hf
+          intro _; rw [hhs]; exact hd
+
+/-- **C10, whole trace (every script).** From a fresh connection: all `Request` frames written between an assignment
+    and the completion or cancellation of the piece name that piece and are, in order, the tiles
+    `(k·16384, min 16384 (len − k·16384))` of its length, each exactly once; two are pipelined at the assignment; every
+    accepted block is followed by exactly one further request while tiles remain; the piece is stored and reported
+    exactly at the accepted block that leaves nothing outstanding and nothing unrequested; blocks that do not answer an
+    outstanding request cause nothing. -/
+theorem C10_trace (sha1 : Bytes → Bytes) (s : HState) (halive : s.alive = true) (hrx : s.pieceRx = none)
+    (script : List TIn) : P10 PIECE_BLOCK_SIZE (runTrace sha1 s script) = true :=
+  checkTrace_run sha1 (step10 BS)
+    (fun st s => R10 st s ∧ (s.alive = true → s.pieceRx ≠ none → s.hsDone = true))
+    (fun st s inp s' o e hR h => by
+      obtain ⟨hR1, hR2⟩ := hR
+      cases ha : s.alive with
+      | false =>
+        have hd := tstep_dead sha1 s ha inp
+        rw [hd] at h; cases h
+        obtain ⟨st', h1, h2⟩ := step10_sound sha1 st s inp s [] none hR1 hR2 hd
+        exact ⟨st', h1, h2, fun hal => by rw [ha] at hal; cases hal⟩
+      | true =>
+        obtain ⟨st', h1, h2⟩ := step10_sound sha1 st s inp s' o e hR1 hR2 h
+        exact ⟨st', h1, h2, fun _ => hs_inv sha1 s inp s' o e ha (hR2 ha) h⟩)
+    script { cur := none, alive := true } s
+    ⟨⟨halive.symm, fun _ => by rw [hrx]; trivial⟩, fun _ hp => absurd hrx hp⟩
+
 
 end Rdest.Props.C10
